@@ -240,7 +240,7 @@ def tree_check(cid, text, extra_legs, counters):
     return {
         'level': 'exploration',
         'rule': 'operation sequences (insert / upsert / update / remove / lookup / scan) against a real pager file through the verif facade: key orders ascending, descending, random, zigzag, duplicate-heavy; '
-                'key types BigUInt, BigInt, Int, Double, Text and composites; page sizes 4-64 KiB; min_keys 3/4/6; siblings 1/2/3; uniform cells of 8-120 bytes; 60-2500 (quick) / 12000 (thorough) operations. '
+                'key types BigUInt, BigInt, Int, Double, Text and composites; page sizes 4-64 KiB; min_keys 3/4/6; siblings 1/2/3; uniform cells of 8-120 bytes; 60-2500 (quick) / 3500 (thorough) operations. '
                 'Bounded-exhaustive stratum for cells of different sizes: every assignment of payload sizes {8, 180, 350, 1200} to 7 fresh keys (4^7) x 12 (quick) / 120 (thorough) key orders, every key looked up after every insert. '
                 'After every operation a lookup is compared with a BTreeMap model; every 4th/16th operation the full forward scan is compared and the page graph is walked (equal leaf depth, sibling chain = in-order leaves both ways, '
                 'child counts, cells inside the page and non-overlapping, overflow chains) and every page of the file is attributed to exactly one owner. Non-trivial = every sequence; distinct = hash of (configuration, seed).',
@@ -255,7 +255,7 @@ def tree_check(cid, text, extra_legs, counters):
 
 
 CHECKS['C10'] = tree_check('C10', '~650 (quick) / 9600 (thorough) sequences, ~300k / 6M operations, each followed by a model comparison; full scans and structural walks at quiescent points. Sampling over sequences and configurations.',
-                           [{'flavour': 'prod', 'shards': 6, 'engine': 'C10W'}], {'lookups_checked': 100000, 'audits': 10000, 'scans_checked': 10000})
+                           [{'flavour': 'prod', 'shards': 7, 'engine': 'C10W'}], {'lookups_checked': 100000, 'audits': 10000, 'scans_checked': 10000})
 CHECKS['C11'] = tree_check('C11', 'Same sequences as C10 with the whole-file ownership audit as the deciding oracle (double owner, leak, free-list tail / cycle, page type confusion), plus release-and-reuse scenarios '
                            '(fill a tree, release it, all its pages must be on the free list, a second tree must allocate from there before the file grows: decided by engine-side allocation probes) and audits of live databases after SQL histories '
                            '(inserts, deletes, VACUUM, reopen; with and without a UNIQUE index) from the catalog roots.',
